@@ -133,7 +133,10 @@ def replay(W, beh):
                 # key names is the set of loaded objects
                 if act[1] not in ringobj:
                     ringobj[act[1]] = pgpy.PGPKey.from_blob(bytes(keys[act[1]].pubkey))[0]
-                ring.load(ringobj[act[1]])
+                try:
+                    ring.load(ringobj[act[1]])
+                except Exception:
+                    out = plain('refused')
             elif name == 'ring-unload':
                 try:
                     ring.unload(ringobj[act[1]])
@@ -150,7 +153,10 @@ def replay(W, beh):
                     out = plain('not-truthy')
             else:
                 raise MachineryError('unknown session action %r' % (act,))
-            loaded = {str(f).replace(' ', '') for f in ring.fingerprints()}
+            try:
+                loaded = {str(f).replace(' ', '') for f in ring.fingerprints()}
+            except Exception:
+                loaded = set()
             probe = {k: [bool(keys[k].is_protected), bool(keys[k].is_unlocked)] for k in keys}
             probe['ring'] = [1 if fpr[k].replace(' ', '') in loaded else 0 for k in ('A', 'B')]
         events.append({'act': list(act), 'out': out, 'probe': probe})
